@@ -43,7 +43,11 @@ HAZ_REPS = [HAZ.index(t) for t in ("aa", "Bb.", "-", "1.", "1)", "#", ">", ">x",
 
 INL = ["aa", "Bb.", "`c d`", "`` `x` ``", "[l k](u)", '[l](<u v> "t")', "[l][r]", "[r]", "![i](u 't')", "<http://u>",
        "http://u.v/w_x", "www.u.v", "<b>", "</b>", '<a href="x y">', "*e*", "**s**", "***b***", "_e_", "~~d~~", "~x~", "*e", "f*",
-       "**g", "h**", "&amp;", "\\*", "x[^n]", "[l", "k](u)", "`c", "d`"]
+       "**g", "h**", "&amp;", "\\*", "x[^n]", "[l", "k](u)", "`c", "d`",
+       # appended later: legal but unusual spellings (CDATA sections and processing instructions were tried and left out: wrapped to a
+       # line start they open an HTML block for CommonMark readers, the K-htmlblock finding, once per partner token)
+       "[a](<>)", "[a]()", "[a][]", "[![i](u)](v)", "[a\\]b](u)", "<HTTP://U.V>", "a@b.cc", "mailto:a@b.cc", "&#x41;", "&nbsp;", "<br/>",
+       "**a*b*c**", "*a**b**c*", "`` ` ``", "[ ]", "www.a.b/c_d.", "http://a.b/c)", "**\u4e2d\u6587**abc"]
 INL_REPS = [INL.index(t) for t in ("aa", "Bb.", "`c d`", "[l k](u)", "[l][r]", "<http://u>", "www.u.v", "<b>", "*e", "f*", "**s**",
                                    "~~d~~", "\\*", "[l", "k](u)")]
 
